@@ -2,6 +2,7 @@ import Mathlib.Algebra.Order.Field.Basic
 import Mathlib.Tactic.Linarith
 import Mathlib.Tactic.Ring
 import Urandom.Model.FloatDistr
+import Urandom.Lemmas.IEEEExact
 /-
 C12 - Uniform float ranges never return a value outside [low, high).
 
@@ -92,5 +93,68 @@ def equalWitnesses : Bool :=
 /-- with equal finite bounds the sample is that value (checked on witnesses of each class by kernel
 evaluation: a normal, a subnormal, a huge and a negative value; tests, labelled as such) -/
 theorem equal_bounds_witnesses : equalWitnesses = true := by decide +kernel
+
+/-! ### equal bounds, every input (clause 2 of the property) -/
+
+theorem round_zero (f : Fmt) (s : Bool) (e : ℤ) (st : Bool) : round f (.fin s 0 e) st = .fin s 0 f.emin := by
+  simp [round]
+
+/-- **with equal finite bounds every sample is exactly that value**, for every finite bound `x`
+(normal, subnormal, zero of either sign, either width) and every unit float `u`: `try_new(x, x)`
+succeeds, `scale = +0`, `base = x`, and `u·scale + base` decodes to `x` (to `+0` for `x = -0`: equal
+as IEEE values, `-0.0 == 0.0`). Two roundings, both exact. -/
+theorem equal_bounds_all (f : Fmt) (hf : f.WF) (checked : Bool) (x u : ℕ) (s : Bool) (m : ℕ) (e : ℤ)
+    (hx : decode f x = .fin s m e) (n : ℕ) (g : ℤ) (hu : decode f u = .fin false n g) :
+    ∃ d, UniformFloat.tryNew f checked x x = .ok d ∧
+      decode f (d.sampleU f u) = (if m = 0 then .fin false 0 f.emin else .fin s m e) := by
+  have hc : Canon f (.fin s m e) := hx ▸ decode_canon f x
+  have hle : f.emin ≤ e := canon_emin_le f s m e hc
+  -- scale = x - x = +0
+  have hscale : decode f (sub f x x) = .fin false 0 f.emin := by
+    unfold sub
+    rw [decode_encode f hf, hx]
+    simp only [Val.neg, Val.addE]
+    rw [addFin_self_neg, round_zero]
+  -- base = x - (+0) = x
+  have hbase : decode f (sub f x (sub f x x)) = .fin s m e := by
+    unfold sub at hscale ⊢
+    rw [decode_encode f hf, hscale, hx]
+    simp only [Val.neg, Val.addE, Bool.not_false]
+    rw [addFin_zero_right s m e true f.emin hle]
+    by_cases hm : m = 0
+    · subst hm
+      rcases hc with ⟨_, he⟩ | ⟨h, _⟩
+      · simp [round_zero, he]
+      · exact absurd h (by have : 0 < 2 ^ f.mb := Nat.pos_of_ne_zero (by positivity); omega)
+    · rw [if_neg hm, round_shift_back f s m e _ hc]
+  refine ⟨⟨sub f x (sub f x x), sub f x x⟩, ?_, ?_⟩
+  · unfold UniformFloat.tryNew
+    have h1 : isFinite f (sub f x (sub f x x)) = true := by unfold isFinite; rw [hbase]; rfl
+    have h2 : isFinite f (sub f x x) = true := by unfold isFinite; rw [hscale]; rfl
+    simp [h1, h2]
+  · unfold UniformFloat.sampleU add mul
+    simp only []
+    rw [decode_encode f hf, decode_encode f hf, hu, hscale, hbase]
+    simp only [Val.mulE, Nat.mul_zero, round_zero, Val.addE]
+    rw [addFin_zero_left _ f.emin s m e hle]
+    by_cases hm : m = 0
+    · simp [hm, round_zero]
+    · rw [if_neg hm, if_neg hm, round_shift_back f s m e _ hc]
+
+/-- in IEEE terms: the sample compares equal to the bound -/
+theorem equal_bounds_eq (f : Fmt) (hf : f.WF) (checked : Bool) (x u : ℕ) (s : Bool) (m : ℕ) (e : ℤ)
+    (hx : decode f x = .fin s m e) (n : ℕ) (g : ℤ) (hu : decode f u = .fin false n g) :
+    ∃ d, UniformFloat.tryNew f checked x x = .ok d ∧ IEEE.eq f (d.sampleU f u) x = true := by
+  obtain ⟨d, h1, h2⟩ := equal_bounds_all f hf checked x u s m e hx n g hu
+  refine ⟨d, h1, ?_⟩
+  unfold IEEE.eq
+  rw [h2, hx]
+  by_cases hm : m = 0
+  · subst hm; simp [Val.eq, Val.finEq]
+  · rw [if_neg hm]; simp [Val.eq, Val.finEq]
+
+/-- non-vacuity: 100.0 decodes to a finite value and a unit float to a positive finite one -/
+example : decode b64 0x4059000000000000 = .fin false 0x19000000000000 (-46) ∧
+    decode b64 (rngF64 0x123456789ABCDEF0#64).toNat = .fin false 0x1123456789ABCD (-52) := by decide +kernel
 
 end Urandom.C12
